@@ -117,3 +117,21 @@ Proof. exact CacheMask.C09_mask_clipped_refuted. Qed.
 Print Assumptions C09_mask_clipped_refuted.
 
 Example C09_mask_nonvacuous : _ := CacheMask.mx_c09.
+
+(* ---- tie C (extended): statements about the Gallina translation of the SOURCE TEXT, regenerated from
+   /repo on every run (Gen/Source.v); external calls are function parameters of the generated definitions ---- *)
+From CG Require Import Model.Loop Gen.Source Proofs.GenEq3.
+
+(* CachedTimeline._purge_sink, for all inputs *)
+Theorem C09_source_purge_is_model : forall sk s e, g_cache_purge_sink sk s e = purge_sink sk s e.
+Proof. exact g_cache_purge_sink_eq. Qed.
+Print Assumptions C09_source_purge_is_model.
+
+(* the clipping loop of CachedTimeline._fill_gap, over any source *)
+Theorem C09_source_clip_is_model : forall (sk : list ivl) (kv : bool) (kf : option unit)
+    (src : option Z -> option Z -> bool -> list ivl) (gs ge : Z),
+  fst (g_cache_fill_gap_clip sk kv kf src gs ge) =
+  fold_left (fun sk0 i => match clip_to_gap gs ge i with Some j => sl_add j sk0 | None => sk0 end)
+            (src (Some gs) (Some ge) false) sk.
+Proof. exact (@g_cache_fill_gap_clip_eq unit). Qed.
+Print Assumptions C09_source_clip_is_model.
